@@ -204,6 +204,8 @@ type ExploreOpts struct {
 	Key func(m *am.Machine) string
 	// ExtraInit are histories used as additional BFS roots (non-initial starts).
 	ExtraInit [][]Step
+	// BeforeMut runs after the path was replayed, right before the mutation.
+	BeforeMut func(m *am.Machine)
 }
 
 // ExploreSpec runs a BFS over the machine states reachable by muts, calling
@@ -243,6 +245,9 @@ func ExploreSpec(sp Spec, muts []Step, o ExploreOpts, visit func(t *Trans)) (sta
 			t := &Trans{Spec: sp, Path: path, Mut: mu, Mach: m, Index: m.StateNames()}
 			t.Before = m.ActiveStates(nil)
 			t.TimeBefore = m.Time(nil)
+			if o.BeforeMut != nil {
+				o.BeforeMut(m)
+			}
 			t.Result = mu.Apply(m)
 			t.After = m.ActiveStates(nil)
 			t.TimeAfter = m.Time(nil)
